@@ -874,7 +874,11 @@ class CCodeGenerator:
 
     def gen_local_init_union(self, ptr, typ, expr):
         """Initialize a union type local variable"""
-        assert isinstance(expr, expressions.UnionInitializer)
+        if not isinstance(expr, expressions.UnionInitializer):
+            # Initialized by an expression of union type: copy the object
+            value = self.gen_expr(expr, rvalue=True)
+            self.emit(ir.Store(value, ptr))
+            return ptr, value.ty.size
         assert expr.typ is typ
 
         # Initialize the first field!
